@@ -503,7 +503,17 @@ def scenario(name, role):
     if sc is None:
         sh = SHAPE_BY_NAME[name]
         S = Sender(role == "client", wt=sh.wt)
-        sh.fn(S)
+        try:
+            sh.fn(S)
+        except Exception as e:  # the sending API refused a valid write pattern
+            import traceback
+
+            tb = traceback.extract_tb(e.__traceback__)
+            api = [f.name for f in tb if f.filename.endswith("h3/connection.py")]
+            sc = {"error": type(e).__name__, "api": api[0] if api else "?", "shape": name,
+                  "cls": sh.cls, "role": role}
+            _SCEN[key] = sc
+            return sc
         sc = S.result()
         sc["shape"] = name
         sc["cls"] = sh.cls
@@ -961,6 +971,9 @@ def inter_groups(sc):
 def roundtrip_case(item):
     name, role = item
     sc = scenario(name, role)
+    if sc.get("error"):
+        return {"item": item, "viol": {"sender_error": sc["error"], "api": sc["api"]},
+                "valid": True, "canon": ("sender_error", sc["error"]), "sizes": {}, "nonempty": False}
     canon = canonical(sc)
     exp = sc["expected"]
     viol = None
@@ -994,6 +1007,13 @@ def _work(item):
 def _report(ctx, sc_item, v):
     name, role = sc_item
     sh = SHAPE_BY_NAME[name]
+    if v.get("sender_error"):
+        sig = {"monitor": "sender", "cls": sh.cls, "diff": "sending_api_raised",
+               "detail": "%s in %s" % (v["sender_error"], v["api"])}
+        ctx.violation(sig, "shape %s (sender=%s): the sending API raised %s in %s for a valid "
+                      "write pattern" % (name, role, v["sender_error"], v["api"]),
+                      {"shape": name, "role": role, "sender_error": v["sender_error"]})
+        return
     # replay twice on fresh objects before reporting (DESIGN 2.3)
     sc = scenario(name, role)
     plan = [tuple(s) for s in v["plan"]]
@@ -1043,6 +1063,8 @@ def plan_items(ctx):
         for role in sh.roles:
             sc = scenario(sh.name, role)
             items_rt.append(("rt", sh.name, role))
+            if sc.get("error"):
+                continue
             for x in sc["order"]:
                 if x == "d":
                     continue
@@ -1093,7 +1115,7 @@ def run(ctx):
                 _report(ctx, r["item"], r["viol"])
         ctx.part("roundtrip", evaluations=len(res), valid_shapes=n_valid,
                  distinct_nontrivial=len({r["canon"] for r in res}), shapes_with_events=nonempty)
-        for r in res[:3]:
+        for r in [r for r in res if r["sizes"]][:3]:
             ctx.sample({"part": "roundtrip", "shape": r["item"][0], "sender": r["item"][1],
                         "stream_bytes": r["sizes"], "normal_form": h3drive.nf_json(r["canon"])})
         if len({r["canon"] for r in res}) < 3:
@@ -1187,7 +1209,7 @@ def run(ctx):
     ctx.cov["exhaustive"] = not ctx.caps_hit
     max_bytes = max(
         len(st["data"]) for sh in shapes for role in sh.roles
-        for sid, st in scenario(sh.name, role)["streams"].items() if sid != "d")
+        for sid, st in scenario(sh.name, role).get("streams", {}).items() if sid != "d")
     ctx.cov["bounds"] = {
         "shapes": len(shapes),
         "shape_role_pairs": len(items_rt),
@@ -1223,6 +1245,14 @@ def run(ctx):
 def replay(ctx, obj):
     rp = obj["replay"]
     sc = scenario(rp["shape"], rp["role"])
+    if sc.get("error") or rp.get("sender_error"):
+        print("shape %s, sender role %s: sending API raised %s (expected %s)" % (
+            rp["shape"], rp["role"], sc.get("error"), rp.get("sender_error")))
+        if sc.get("error"):
+            print("VIOLATION property=C14 replay=(replayed)")
+            return 1
+        print("no violation on replay")
+        return 0
     print("shape %s, sender role %s; streams sent by the real sender:" % (rp["shape"], rp["role"]))
     for sid in sc["order"]:
         st = sc["streams"][sid]
